@@ -70,13 +70,24 @@ def g_feat(rng, full, wild=False):
     if wild and rng.random() < 0.1:
         m = [kv for kv in m if kv[0] != 'type'] + [['type', rng.choice([None, 7])]]
     rng.shuffle(m)
-    nl = 1 if rng.random() < 0.8 else 2
+    nl = rng.choice([1, 1, 1, 1, 1, 2, 2, 3])
+    minus = rng.random() < 0.3
     locs = []
     for _ in range(nl):
         s = rng.randrange(-1, 6)
-        locs.append([s, s + rng.randrange(1, 4)])
-    locs.sort(key=lambda l: l[0])
-    return {'f': True, 'd': '', 'locs': locs, 'm': m}
+        locs.append([s, s + rng.choice([1, 2, 3, 3, 5, 8])])          # long ones nest shorter ones
+    return _with_locs({'f': True, 'd': '', 'm': m}, locs, minus)
+
+
+def _with_locs(e, locs, minus):
+    """locations in the order LocationTuple.__new__ stores them (fts.py:188-191): '-' by descending stop, else by start"""
+    locs = sorted(locs, key=lambda l: l[1], reverse=True) if minus else sorted(locs, key=lambda l: l[0])
+    e = dict(e, locs=[list(l) for l in locs])
+    if minus:
+        e['minus'] = True
+    else:
+        e.pop('minus', None)
+    return e
 
 
 def g_seq(rng, full, wild=False):
@@ -135,6 +146,8 @@ def g_keys(rng, allow_default):
 
 def g_cond(rng, feat):
     r = rng.random()
+    if rng.random() < 0.1:              # None as comparison value: selects / excludes the elements lacking the key
+        return [rng.choice(['type', 'name', 'seqid', 'n']) + rng.choice(['_eq', '_ne']), None]
     if r < 0.25:
         return [rng.choice(['n', 'len']) + '_' + rng.choice(['lt', 'le', 'eq', 'ne', 'ge', 'gt', 'max', 'min']), rng.randrange(0, 4)]
     if r < 0.4:
@@ -258,6 +271,8 @@ def g_hist(rng):
                 x['_i'] = nxt
                 nxt += 1
             steps.append({'s': 'setop', 'code': rng.randrange(12), 'b': b, 'plain': rng.random() < 0.4})
+        elif r < 0.88:
+            steps.append({'s': 'touch', 'kind': rng.choice(['str', 'repr', 'locmeta', 'loc1meta'])})
         elif r < 0.9:
             steps.append({'s': 'reverse'})
         elif r < 0.94:
@@ -309,6 +324,54 @@ def gen_cases(rng, tier):
             x['_i'] = i
         cases.append({'_op': 'setop', '_recv': 'fl' if feat else 'bb', 'code': hrng.choice([9, 9, 11, 1, 5]), 'a': a, 'b': b,
                       'plain': hrng.random() < 0.5})
+    for _ in range(600 if tier == 'thorough' else 60):        # elements differing only in WHICH key holds None / is absent
+        feat = hrng.random() < 0.5
+        base = (g_feat if feat else g_seq)(hrng, hrng.random() < 0.5, False)
+        ks = hrng.sample(['name', 'seqid', 'organism', 'strain', 'note'], 3)
+        bm = [kv for kv in base['m'] if kv[0] not in ks]
+        pool = [dict(base, m=bm + [[ks[0], None]]), dict(base, m=bm + [[ks[1], None]]), dict(base, m=bm + [[ks[0], None], [ks[1], None]]),
+                dict(base, m=bm + [[ks[0], 'v']]), dict(base, m=bm), dict(base, m=[[ks[1], None]] + bm), dict(base, m=bm + [[ks[2], 0]])]
+        a = [dict(hrng.choice(pool)) for _ in range(hrng.choice([1, 2, 3]))]
+        b = [dict(hrng.choice(pool)) for _ in range(hrng.choice([1, 2, 3]))]
+        for i, x in enumerate(a + b):
+            x['_i'] = i
+        cases.append({'_op': 'setop', '_recv': 'fl' if feat else 'bb', 'code': hrng.randrange(12), 'a': a, 'b': b,
+                      'plain': hrng.random() < 0.4})
+    for _ in range(600 if tier == 'thorough' else 60):        # multi-location features, both strands, nested: default order
+        xs = []
+        for i in range(hrng.choice([2, 3, 4, 5])):
+            f = g_feat(hrng, True)
+            f['m'] = [kv if kv[0] != 'seqid' else ['seqid', hrng.choice(['s1', 's1', 's2'])] for kv in f['m']]
+            locs = [[s, s + hrng.choice([1, 3, 10, 40, 60])] for s in (hrng.choice([0, 0, 5, 20, 30]) for _ in range(hrng.choice([1, 2, 3])))]
+            f = _with_locs(f, locs, hrng.random() < 0.5)
+            f['_i'] = i
+            xs.append(f)
+        keys = hrng.choice([{'default': True}, {'one': None}, {'t': ['seqid', None]}, {'t': [None]}, {'t': [None, 'n']}])
+        if hrng.random() < 0.3:
+            seqs = [[sid, []] for sid in hrng.sample(['s1', 's2', 's9'], 2)]
+            k = len(xs)
+            for sq in seqs:
+                for _ in range(hrng.choice([0, 1])):
+                    f = _with_locs(dict(g_feat(hrng, True), m=[['seqid', sq[0]], ['type', 'x']]), [[hrng.choice([0, 20]), 25]], False)
+                    f['_i'] = k
+                    k += 1
+                    sq[1].append(f)
+            cases.append({'_op': 'attach', 'add': True, 'seqs': seqs, 'fs': xs, 'plain': hrng.random() < 0.5})
+        else:
+            cases.append({'_op': 'sort', '_recv': 'fl', 'xs': xs, 'keys': keys, 'reverse': hrng.random() < 0.4})
+    for _ in range(500 if tier == 'thorough' else 50):        # get/select with several requested types, features of several types
+        xs, _ = g_list(hrng, feat=True, full=hrng.random() < 0.7, wild=False)
+        ts = hrng.sample(['cds', 'CDS', 'gene', 'GENE', 'tRNA', 'trna', 'x'], hrng.choice([2, 2, 3]))
+        present = []
+        for e in xs:
+            t = dict(map(tuple, e['m'])).get('type')
+            if isinstance(t, str) and t.lower() not in present:
+                present.append(t.lower())
+        if len(present) >= 2 and hrng.random() < 0.7:          # request the types that occur, the later-occurring one first
+            ts = [hrng.choice([t, t.upper(), t.capitalize()]) for t in reversed(present)]
+            if hrng.random() < 0.3:
+                ts.insert(hrng.randrange(len(ts) + 1), 'x')
+        cases.append({'_op': hrng.choice(['get', 'get', 'select']), '_recv': 'fl', 'xs': xs, 't': ts})
     for _ in range(400 if tier == 'thorough' else 40):        # two conditions on the SAME key
         xs, feat = g_list(hrng, full=True, wild=False)
         key = hrng.choice(['n', 'len', 'name'])
@@ -357,7 +420,8 @@ def gen_cases(rng, tier):
             if rng.random() < 0.04:             # an element of the other kind in the right operand (outside the domain)
                 b.append(dict((g_seq if feat else g_feat)(rng, full, False), _i=len(a) + len(b)))
             cases.append({'_op': 'setop', '_recv': 'fl' if feat else 'bb', 'code': rng.randrange(12), 'a': a, 'b': b,
-                          'plain': rng.random() < 0.4})
+                          'plain': rng.random() < 0.4,
+                          'touch': [[rng.choice('ab'), rng.choice(TOUCHES)] for _ in range(rng.choice([0, 0, 1, 1, 2]))]})
         else:
             wild = rng.random() < 0.3
             fs, _ = g_list(rng, feat=True, full=not wild and rng.random() < 0.8, wild=False, maxn=7)
@@ -384,8 +448,40 @@ def _build(e):
     from sugar import BioSeq, Feature
     from sugar.core.fts import Location
     if e['f']:
-        return Feature(locs=[Location(s, t) for s, t in e['locs']], meta={k: v for k, v in e['m']})
+        return Feature(locs=[Location(s, t, strand='-' if e.get('minus') else '+') for s, t in e['locs']], meta={k: v for k, v in e['m']})
     return BioSeq(e['d'], meta={k: v for k, v in e['m']})
+
+
+TOUCHES = ['str', 'repr', 'locmeta', 'loc1meta', 'slice', 'copy']
+
+
+def _touch(objs, kind, cls, ident):
+    """read-only use of a list of elements; 'slice'/'copy' give equal new objects (registered under the same positions)"""
+    from sugar import FeatureList
+    new = None
+    try:
+        if kind == 'str':
+            str(cls(objs))
+        elif kind == 'repr':
+            repr(cls(objs)), [repr(o) for o in objs]
+        elif kind in ('locmeta', 'loc1meta') and cls is FeatureList:
+            for o in objs:
+                if kind == 'locmeta':
+                    o.loc.meta
+                elif len(o.locs) > 1:
+                    o.locs[1].meta
+        elif kind == 'slice' and cls is FeatureList:
+            new = list(cls(objs).slice(None, None))
+        elif kind == 'copy':
+            new = list(cls(objs).copy())
+    except Exception:
+        return objs
+    if new is None or len(new) != len(objs):
+        return objs
+    for o, n in zip(objs, new):
+        ident[id(n)] = ident[id(o)]
+    ident.setdefault('_keep', []).append(objs)          # keep the originals alive: ids stay unique
+    return new
 
 
 def _pykey(k):
@@ -515,6 +611,9 @@ def _impl_hist(case):
             elif k == 'reverse':
                 cur.data.reverse()
                 v = None
+            elif k == 'touch':
+                _touch(list(cur.data), st['kind'], cls, {id(o): 0 for o in cur.data})
+                v = None
             elif k == 'setitem':
                 cur.data[st['j']] = cur.data[st['i']]
                 v = None
@@ -625,6 +724,11 @@ def impl(case):
     if op == 'setop':
         a, b = build_all(case['a']), build_all(case['b'])
         keep = a + b
+        for which, kind in case.get('touch', []):           # element equality must not depend on what an operand went through
+            if which == 'a':
+                a = _touch(a, kind, cls, ident)
+            else:
+                b = _touch(b, kind, cls, ident)
         code = case['code']
         fn = [operator.and_, operator.or_, operator.sub, operator.xor][code % 4]
         ifn = [operator.iand, operator.ior, operator.isub, operator.ixor][code % 4]
@@ -716,7 +820,7 @@ def t_meta(m):
 
 def t_elem(e):
     if e['f']:
-        return '(Ft %d %s %s)' % (e['_i'], coq_list(['(%d, %d)%%Z' % (s, t) for s, t in e['locs']]), t_meta(e['m']))
+        return '(%s %d %s %s)' % ('Fm' if e.get('minus') else 'Ft', e['_i'], coq_list(['(%d, %d)%%Z' % (s, t) for s, t in e['locs']]), t_meta(e['m']))
     return '(Sq %d %s %s)' % (e['_i'], coq_bs(e['d']), t_meta(e['m']))
 
 
@@ -779,6 +883,8 @@ def t_step(st, recv):
         return 'HTodict'
     if k == 'setop':
         return '(HSetop %s %s)' % (coq_N(st['code']), t_elems(st['b']))
+    if k == 'touch':
+        return 'HTouch'
     if k == 'reverse':
         return 'HReverse'
     if k == 'setitem':
@@ -841,7 +947,8 @@ def _len(e):
 
 
 def _same(x, y):
-    return x['f'] == y['f'] and x['d'] == y['d'] and x['locs'] == y['locs'] and _tagd(_meta(x)) == _tagd(_meta(y))
+    return (x['f'] == y['f'] and x['d'] == y['d'] and x['locs'] == y['locs'] and bool(x.get('minus')) == bool(y.get('minus'))
+            and _tagd(_meta(x)) == _tagd(_meta(y)))
 
 
 def _tag(v):
@@ -1076,7 +1183,8 @@ def features(case, implval):
 def python_snippet(case):
     def pe(e):
         if e['f']:
-            return 'Feature(locs=[%s], meta=%r)' % (', '.join('Location(%d, %d)' % (s, t) for s, t in e['locs']), _meta(e))
+            return 'Feature(locs=[%s], meta=%r)' % (', '.join('Location(%d, %d%s)' % (s, t, ", '-'" if e.get('minus') else '')
+                                                                for s, t in e['locs']), _meta(e))
         return 'BioSeq(%r, meta=%r)' % (e['d'], _meta(e))
 
     def pl(es):
@@ -1118,6 +1226,10 @@ def python_snippet(case):
                 call = ('%s %s x' % (b, sym)) if st['code'] >= 4 else ('x %s %s' % (sym, b))
             elif k == 'reverse':
                 s += 'x.data.reverse()\n'
+                continue
+            elif k == 'touch':
+                s += {'str': 'str(x)', 'repr': 'repr(x)', 'locmeta': '[f.loc.meta for f in x]',
+                      'loc1meta': '[f.locs[1].meta for f in x if len(f.locs) > 1]'}[st['kind']] + '\n'
                 continue
             elif k == 'setitem':
                 s += 'x.data[%d] = x.data[%d]\n' % (st['j'], st['i'])
